@@ -17,7 +17,7 @@ MISMATCH_FN = "mismatch current_cfg"
 VIOLATES_FN = "violates"
 RULE = ("diff cases = one generated history of 9-13 blocks (oracle prevote/vote by 3 validators, sudo EditSudoers with 3-6 "
         "contracts, EVM transfers / deploys / calls writing 1-5 slots and paying 0-4 fresh accounts, FunToken create/convert, "
-        "precompile calls, messages that FAIL WHILE EXECUTING in every module (FunToken convert above balance / by a non-holder / wrong direction, CreateFunToken without metadata or from a non-ERC20 address, bank / delegate above balance, EVM value above balance, gas below intrinsic, future nonce, over-large sendToBank), restarts of the perturbed replica placed right after such failures with EVM traffic first thing afterwards, EOA->precompile txs with unknown selectors / truncated / malformed calldata for all three precompiles (VM error inside ResponseDeliverTx.Data), single txs that pay 2-12 fresh accounts and THEN call a Nibiru precompile (intermediate StateDB commit), sudo-gated oracle / inflation param edits, tokenfactory (sudo) denom metadata, gov proposals updating evm / devgas params (voted and executed), EVM access lists - every repeated message field with 6-15 entries in random order WITH DUPLICATES -, tokenfactory, authz grant/exec, delegate, bank send/multisend, day jumps for epochs+inflation) "
+        "precompile calls, messages that FAIL WHILE EXECUTING in every module (FunToken convert above balance / by a non-holder / wrong direction, CreateFunToken without metadata or from a non-ERC20 address, bank / delegate above balance, EVM value above balance, gas below intrinsic, future nonce, over-large sendToBank), restarts of the perturbed replica placed right after such failures with EVM traffic first thing afterwards, EOA->precompile txs with unknown selectors / truncated / malformed calldata for all three precompiles (VM error inside ResponseDeliverTx.Data), single txs that pay 2-12 fresh accounts and THEN call a Nibiru precompile (intermediate StateDB commit), sudo-gated oracle / inflation param edits, tokenfactory (sudo) denom metadata, gov proposals updating evm / devgas params (voted and executed), EVM access lists - every repeated message field with 6-15 entries in random order WITH DUPLICATES -, tokenfactory, authz grant/exec, delegate, bank send/multisend, day jumps for epochs+inflation; in one history of three (and a fixed opener) 3-6 wasm counter contracts registered for x/devgas fee share with withdrawers that have NO account yet, re-registered to new fresh withdrawers, and single txs carrying 2-6 MsgExecuteContract so that the dev-gas ante pays - and creates the accounts of - several withdrawers in one tx) "
         "executed on 3 replicas from one genesis through BeginBlock/DeliverTx/EndBlock/Commit (one history in four, and a fixed "
         "dense-oracle opener, also on a SLOW replica: short delays at every n-th store operation through a slow store-tracer sink, and "
         "1.1-2 s stalls at BeginBlock/EndBlock store operations executed while an application goroutine is alive), compared per block on app hash, "
@@ -266,7 +266,12 @@ def model_search(chk):
         {"dt": 5, "ops": [{"kind": "oracle", "a": v, "b": 0, "c": 0, "l": [100 + (3 * b + v) % 7, 110 + (b + 2 * v) % 5, 105 + (b + v) % 3]}
                           for v in range(3)]} for b in range(9)]}
     rngs = [{"t": "range", "keys": [7, 3, 5, 9, 1], "delays": [[0] * 6, [0] * i + [1300 + 400 * i] + [0] * (5 - i)]} for i in range(1, 4)]
-    return [slow] + rngs + [pch, lists, raw, sudo, evmh, orc]
+    # x/devgas ante: contracts registered for fee share with withdrawers that never held an account, several executed by ONE tx
+    dg = {"t": "diff", "child": True, "blocks": [
+        {"dt": 5, "ops": [{"kind": "wasmdeploy", "a": 0, "b": 0, "c": 6}] + [{"kind": "dgreg", "a": i, "b": 91000 + i, "c": 0} for i in range(6)]}] + [
+        {"dt": 5, "ops": [{"kind": "dgreg", "a": (b + j) % 6, "b": 91100 + 10 * b + j, "c": 0} for j in range(3 if b > 1 else 0)] +
+                         [{"kind": "wasmexec", "a": b % 4, "b": 0, "c": 0, "l": [(b + j) % 6 for j in range(2 + b % 5)]}]} for b in range(1, 7)]}
+    return [dg, slow] + rngs + [pch, lists, raw, sudo, evmh, orc]
 
 
 MANIFEST = {
@@ -298,7 +303,7 @@ MANIFEST = {
                    "(replicas, one in another process, one slow). Trusted: Coq kernel + vm_compute; the go/packages fact generator and its path-based consensus/tooling "
                    "scope; the hand table coq/C01/SiteClasses.v (classes JLogOnly/JDebug/JViaUses are argued, not proved); the Go "
                    "driver's digests and order-preserving ids; cosmos-sdk/IAVL/geth/wasm executed, not modelled. c_tally_via_omap, "
-                   "c_remove_via_omap, c_storage_sorted are sufficient but not necessary in the model. devgas, IBC, gov not driven."),
+                   "c_remove_via_omap, c_storage_sorted are sufficient but not necessary in the model. IBC not driven."),
     "technique": ("Coq proofs of schedule and clock independence (permutation/sort, commuting folds, unique match, omap invariant by "
                   "induction, blocking producer/consumer hand-over) over generated site facts + replica differential on ABCI traces "
                   "(incl. delay injection) + sub-model correspondence"),
